@@ -4,6 +4,8 @@
 package snaps
 
 import (
+	"unicode/utf16"
+	"unicode/utf8"
 	"encoding/json"
 	"fmt"
 	"sort"
@@ -103,6 +105,50 @@ func genJRoot(t *rapid.T, depth int) JNode {
 func jsonQuote(s string) string {
 	b, _ := json.Marshal(s)
 	return string(b)
+}
+
+// jsonQuoteASCII: the spelling of a JSON string that encoders with an ASCII-only default produce (Python's json.dumps,
+// JSON.stringify replacers, Java libraries): every non-ASCII character as a \uXXXX escape (pairs beyond the BMP).
+func jsonQuoteASCII(s string) string {
+	var sb strings.Builder
+	sb.WriteByte('"')
+	for _, r := range s {
+		switch {
+		case r == utf8.RuneError:
+			sb.WriteString(`\ufffd`)
+		case r < 0x80:
+			q := jsonQuote(string(r))
+			sb.WriteString(q[1 : len(q)-1])
+		case r <= 0xFFFF:
+			fmt.Fprintf(&sb, `\u%04x`, r)
+		default:
+			hi, lo := utf16.EncodeRune(r)
+			fmt.Fprintf(&sb, `\u%04x\u%04x`, hi, lo)
+		}
+	}
+	sb.WriteByte('"')
+	return sb.String()
+}
+
+// CompactASCII is Compact with every key and string in the ASCII-only spelling: the same document.
+func (n JNode) CompactASCII() string {
+	switch n.K {
+	case "obj":
+		parts := make([]string, len(n.Keys))
+		for i, k := range n.Keys {
+			parts[i] = jsonQuoteASCII(k) + ":" + n.Kids[i].CompactASCII()
+		}
+		return "{" + strings.Join(parts, ",") + "}"
+	case "arr":
+		parts := make([]string, len(n.Kids))
+		for i, k := range n.Kids {
+			parts[i] = k.CompactASCII()
+		}
+		return "[" + strings.Join(parts, ",") + "]"
+	case "str":
+		return jsonQuoteASCII(n.S)
+	}
+	return n.Compact()
 }
 
 // Compact renders the tree without insignificant whitespace, members in tree order.
